@@ -50,7 +50,8 @@ def gen_table(rnd, poly=None, noff=None, n=None):
     if rnd.random() < 0.3:
         rnd.shuffle(cols)
     return {
-        "n": n if n is not None else rnd.choice([1, 1, 2, 3, 5, 8, 13, rnd.randint(1, 40)]),
+        # (0 rows happens: a selection that kept nothing, zero accepted samples)
+        "n": n if n is not None else rnd.choice([0, 1, 1, 2, 3, 5, 8, 13, rnd.randint(1, 40), rnd.randint(1, 40)]),
         "cols": cols,
         "units": {k: rnd.choice(UNIT_CHOICES[k]) for k in cols},
         "dtype": "f4" if rnd.random() < 0.15 else "f8",
@@ -64,7 +65,7 @@ def gen_table(rnd, poly=None, noff=None, n=None):
 def variant(rnd, base, kind):
     t = copy.deepcopy(base)
     t["gen_seed"] = rnd.getrandbits(40)
-    t["n"] = rnd.choice([1, 2, 3, 5, rnd.randint(1, 20)])
+    t["n"] = rnd.choice([0, 1, 2, 3, 5, rnd.randint(1, 20), rnd.randint(1, 20)])
     t["variant"] = kind
     if kind == "compatible":
         return t
@@ -681,6 +682,9 @@ def run(program):
                     rows = list(range(n))[so]
                 elif sel["kind"] == "idx":
                     rows = [int(x) for x in so]
+                    if n == 0:
+                        probe("read_batch_idx_on_empty_table:not-judged")
+                        continue
                 else:
                     rows = None
                 probe("read_batch:" + sel["kind"])
